@@ -6,7 +6,7 @@
     line < 2^24, column < 2^32, the key determines (object type, selections), so a hit returns
     what collectFieldsImpl would compute. *)
 From Coq Require Import List NArith ZArith Bool Lia ZifyN ZifyNat ZifyBool.
-From ApiFu Require Import Base.Sexp Exe.ExecData Exe.ExecModel Exe.ExecBaseProofs Exe.ExecCollectProofs.
+From ApiFu Require Import Base.Sexp Exe.ExecData Exe.ExecModel Exe.ExecHyps Exe.ExecBaseProofs Exe.ExecCollectProofs.
 Import ListNotations.
 
 (** ** the key is injective *)
@@ -117,15 +117,6 @@ Proof.
 Qed.
 
 (** ** selections of the document *)
-Fixpoint sub_sels (s : selection) : list selection :=
-  s :: match s with
-       | SField _ _ _ _ sub => flat_map sub_sels sub
-       | SInline _ _ _ sub => flat_map sub_sels sub
-       | SSpread _ _ _ => []
-       end.
-Definition all_sels (D : document) : list selection :=
-  flat_map sub_sels (op_sels D) ++ flat_map (fun f => flat_map sub_sels (fr_sels f)) (frags D).
-
 (** two selection nodes at the same position are the same node (every parsed document: distinct
     nodes start at distinct tokens) *)
 Definition pos_injective (D : document) : Prop :=
@@ -525,3 +516,48 @@ Section Transparent.
     destruct H as [Hr [He _]]. cbn [fst snd] in *. subst r2. rewrite He. reflexivity.
   Qed.
 End Transparent.
+
+(** ** the boolean side conditions imply the propositional ones *)
+Lemma nodup_posb_inj {A} (f : A -> pos) (l : list A) :
+  nodup_posb (map f l) = true -> forall x y, In x l -> In y l -> f x = f y -> x = y.
+Proof.
+  induction l as [|a l IH]; intros H x y Hx Hy Hf; [destruct Hx|].
+  cbn [map nodup_posb] in H. apply andb_true_iff in H as [H1 H2]. apply negb_true_iff in H1.
+  assert (Hno : forall z, In z l -> f a <> f z).
+  { intros z Hz Heq. assert (existsb (pos_eqb (f a)) (map f l) = true); [|congruence].
+    apply existsb_exists. exists (f z). split; [apply in_map; exact Hz|apply pos_eqb_eq; exact Heq]. }
+  destruct Hx as [<-|Hx], Hy as [<-|Hy].
+  - reflexivity.
+  - exfalso. apply (Hno y Hy). exact Hf.
+  - exfalso. apply (Hno x Hx). symmetry. exact Hf.
+  - apply IH; assumption.
+Qed.
+
+Lemma doc_positions_okb_sound D :
+  doc_positions_okb D = true -> pos_injective D /\ positions_small D.
+Proof.
+  unfold doc_positions_okb. intro H. apply andb_true_iff in H as [H1 H2]. split.
+  - intros s1 s2 Hs1 Hs2 Hp. apply (nodup_posb_inj sel_pos (all_sels D) H1); assumption.
+  - unfold positions_small. rewrite Forall_forall. intros s Hs. rewrite forallb_forall in H2.
+    specialize (H2 s Hs). unfold pos_smallb in H2. apply andb_true_iff in H2 as [Ha Hb].
+    apply N.ltb_lt in Ha. apply N.ltb_lt in Hb. split; assumption.
+Qed.
+
+Lemma name_okb_sound n : name_okb n = true -> name_ok n.
+Proof.
+  unfold name_okb, name_ok. intro H. rewrite Forall_forall. rewrite forallb_forall in H.
+  intros b Hb Hz. specialize (H b Hb). subst b. discriminate.
+Qed.
+
+Lemma type_names_okb_sound S : type_names_okb S = true -> type_names_ok S.
+Proof.
+  unfold type_names_okb, type_names_ok. intro H.
+  apply andb_true_iff in H as [H Hs]. apply andb_true_iff in H as [H Hm]. apply andb_true_iff in H as [Ht Hq].
+  split; [|split; [apply name_okb_sound; exact Hq|split]].
+  - rewrite Forall_forall. rewrite forallb_forall in Ht. intros p Hp. specialize (Ht p Hp).
+    apply andb_true_iff in Ht as [Ha Hb]. split; [apply name_okb_sound; exact Ha|].
+    destruct (snd p); try exact I. rewrite Forall_forall. rewrite forallb_forall in Hb.
+    intros m Hm'. apply name_okb_sound. apply Hb. exact Hm'.
+  - destruct (mutation S); [apply name_okb_sound; exact Hm|exact I].
+  - destruct (subscription S); [apply name_okb_sound; exact Hs|exact I].
+Qed.
